@@ -44,7 +44,15 @@ pub struct C16;
 
 const SELF_ID: u8 = 0;
 
+/// variants below 8 are addresses of the node's own (10.0.variant.id); variants from 8 up are
+/// host slots any node id can occupy (10.9.0.slot): a machine that is given a new node id, or a
+/// replacement node started on the address of the one it replaces
+const SHARED_SLOT: u8 = 8;
+
 fn addr_of(id: u8, variant: u8) -> SocketAddr {
+    if variant >= SHARED_SLOT {
+        return SocketAddr::new(IpAddr::from([10, 9, 0, variant - SHARED_SLOT]), 9000);
+    }
     SocketAddr::new(IpAddr::from([10, 0, variant, id]), 9000)
 }
 
@@ -70,7 +78,7 @@ impl Check for C16 {
         "E1 single-node engine: the real datacake-node watch_membership_changes task fed harness-made membership snapshots; subscribers obtained from the real DatacakeHandle::membership_changes at seeded moments, reading with seeded delays and folding joined/left into a set"
     }
     fn rule(&self) -> &'static str {
-        "Cases: 1-7 membership snapshots over node ids {1,2,3,4} (join, leave, rejoin, rejoin on another address) at seeded virtual times, 1-3 subscribers attaching before, between or after snapshots and spending 0-40 virtual ms per handled change. In thorough tier all snapshot sequences of length <= 3 over ids {1,2} x 2 address variants with one subscriber at every attach point x {fast, slow} are enumerated first. Real-cluster arm (1 case in 127): 2-4 complete nodes (DatacakeNodeBuilder::connect + store extension) under link holds (short, and long enough for the failure detector), crash/restart, moves to another address, clock jumps; a subscriber attached at node start sums every change; once all views stood still for 2 simulated seconds its sum must equal the membership layer's own view minus the node, 240 quiet simulated seconds after the last fault the layer must describe exactly the running nodes at their current addresses - judged a first time while the nodes that crashed \"until the faults stop\" (up to all but one) are still gone, then again after they came back -, and (also in a second cluster family with harness-made views, anti-entropy switched off and nodes coming back on another address) a level-None write issued on every node after the faults must reach every other live node by direct replication within 4 simulated seconds. Oracle at quiescence (1 s after the last snapshot): each subscriber's folded set (id -> address) equals the last snapshot minus the local node; a monitor that subscribed before the first snapshot and reads at once must have been told `left` with the old address for every disappearance and address change. Non-trivial = >= 2 snapshots that differ. Distinct = hash of (snapshot sequence, subscriber timing)."
+        "Cases: 1-7 membership snapshots over node ids {1,2,3,4} (join, leave, rejoin, rejoin on another address; in a third of the cases the nodes live on 2-3 host slots not tied to a node id and a departing node is often replaced, within the same snapshot, by another id on the very same address) at seeded virtual times, 1-3 subscribers attaching before, between or after snapshots and spending 0-40 virtual ms per handled change. In thorough tier all snapshot sequences of length <= 3 over ids {1,2} x 2 address variants with one subscriber at every attach point x {fast, slow} are enumerated first. Real-cluster arm (1 case in 127): 2-4 complete nodes (DatacakeNodeBuilder::connect + store extension) under link holds (short, and long enough for the failure detector), crash/restart, moves to another address, clock jumps; a subscriber attached at node start sums every change; once all views stood still for 2 simulated seconds its sum must equal the membership layer's own view minus the node, 240 quiet simulated seconds after the last fault the layer must describe exactly the running nodes at their current addresses - judged a first time while the nodes that crashed \"until the faults stop\" (up to all but one) are still gone, then again after they came back -, and (also in a second cluster family with harness-made views, anti-entropy switched off and nodes coming back on another address) a level-None write issued on every node after the faults must reach every other live node by direct replication within 4 simulated seconds. Oracle at quiescence (1 s after the last snapshot): each subscriber's folded set (id -> address) equals the last snapshot minus the local node; a monitor that subscribed before the first snapshot and reads at once must have been told `left` with the old address for every disappearance and address change. Non-trivial = >= 2 snapshots that differ. Distinct = hash of (snapshot sequence, subscriber timing)."
     }
     fn assumptions(&self) -> Vec<String> {
         vec![
@@ -129,6 +137,9 @@ impl Check for C16 {
         }
         let ids = rng.gen_range(1..=4u8);
         let n = rng.gen_range(1..=7);
+        // a third of the cases: nodes live on 2-3 host slots that are not tied to a node id, and a
+        // node that goes is often replaced, in the same snapshot, by another id on its address
+        let slots = if ids >= 2 && rng.gen_bool(0.34) { rng.gen_range(2..=3u8) } else { 0 };
         let mut events = Vec::new();
         let mut cur = Snapshot::new();
         let mut t = rng.gen_range(0..20);
@@ -136,6 +147,22 @@ impl Check for C16 {
             // mutate the current membership a little
             for _ in 0..rng.gen_range(1..=2) {
                 let id = rng.gen_range(1..=ids);
+                if slots > 0 {
+                    let free_slot = |cur: &Snapshot, rng: &mut rand::rngs::SmallRng| -> Option<u8> {
+                        let free: Vec<u8> = (0..slots).map(|s| SHARED_SLOT + s).filter(|v| !cur.values().any(|x| x == v)).collect();
+                        if free.is_empty() { None } else { Some(free[rng.gen_range(0..free.len())]) }
+                    };
+                    if let Some(v) = cur.remove(&id) {
+                        // replaced in place by an id that is not a member right now?
+                        let absent: Vec<u8> = (1..=ids).filter(|i| *i != id && !cur.contains_key(i)).collect();
+                        if !absent.is_empty() && rng.gen_bool(0.6) {
+                            cur.insert(absent[rng.gen_range(0..absent.len())], v);
+                        }
+                    } else if let Some(v) = free_slot(&cur, &mut rng) {
+                        cur.insert(id, v);
+                    }
+                    continue;
+                }
                 if cur.contains_key(&id) {
                     if rng.gen_bool(0.7) {
                         cur.remove(&id);
